@@ -28,7 +28,7 @@ type Decl struct {
 }
 
 type Stmt struct {
-	Op  string // inc set del expire
+	Op  string // inc set del expire strptime
 	M   int    // declaration index
 	Val int64  // set: integer literal (float literal is Val + 0.5 when the decl is Float)
 	Dur string // expire: 1ms | 1h
@@ -100,6 +100,10 @@ func (p *Prog) Source() string {
 				fmt.Fprintf(&b, "  del %s%s\n", d.Name, index(d))
 			case "expire":
 				fmt.Fprintf(&b, "  del %s%s after %s\n", d.Name, index(d), s.Dur)
+			case "strptime":
+				// the captured word never is a date: this raises a runtime error
+				// on every line it sees (and abandons the rest of the line)
+				b.WriteString("  strptime($1, \"2006-01-02\")\n")
 			}
 		}
 		b.WriteString("}\n")
@@ -147,6 +151,10 @@ func (p *Prog) Effects(line string) []Effect {
 			continue
 		}
 		for _, s := range r.Stmts {
+			if s.Op == "strptime" {
+				out = append(out, Effect{Op: "fail"})
+				continue
+			}
 			d := p.Decls[s.M]
 			ls := make([]string, len(d.Keys))
 			for i := range ls {
@@ -181,6 +189,7 @@ type GenOpts struct {
 	MaxDecls int
 	Hidden   bool // allow hidden declarations
 	Expire   bool // allow `del ... after`
+	Strptime bool // allow a strptime on the captured word (always a runtime error)
 }
 
 func genDecl(r *vlib.Rand, name string, o GenOpts) Decl {
@@ -237,6 +246,12 @@ func (p *Prog) genRules(r *vlib.Rand, o GenOpts) {
 		ns := 1 + r.Intn(2)
 		for j := 0; j < ns; j++ {
 			rule.Stmts = append(rule.Stmts, mk(r.Intn(len(p.Decls))))
+		}
+		if o.Strptime && r.Chance(30) {
+			at := r.Intn(len(rule.Stmts) + 1)
+			st := append([]Stmt{}, rule.Stmts[:at]...)
+			st = append(st, Stmt{Op: "strptime"})
+			rule.Stmts = append(st, rule.Stmts[at:]...)
 		}
 		p.Rules = append(p.Rules, rule)
 	}
@@ -390,6 +405,19 @@ func Edit(r *vlib.Rand, p *Prog, kind string, o GenOpts) *Prog {
 		}
 	case "rules":
 		q.genRules(r, o)
+	case "same-length":
+		// another text of exactly the same byte length: one rule listens to
+		// another token
+		if len(q.Rules) > 0 {
+			i := r.Intn(len(q.Rules))
+			for {
+				t := vlib.Pick(r, Toks)
+				if t != q.Rules[i].Tok {
+					q.Rules[i].Tok = t
+					break
+				}
+			}
+		}
 	case "syntax-error":
 		q.Broken = true
 	case "fresh":
@@ -403,6 +431,9 @@ func (p *Prog) fixStmts(r *vlib.Rand) {
 	for ri := range p.Rules {
 		for si := range p.Rules[ri].Stmts {
 			s := &p.Rules[ri].Stmts[si]
+			if s.Op == "strptime" {
+				continue
+			}
 			d := p.Decls[s.M]
 			if d.Float && s.Op == "inc" {
 				s.Op, s.Val = "set", int64(1+r.Intn(9))
